@@ -1,6 +1,8 @@
 // Package c04: binary, binomial and Fibonacci heaps (heap package) against a multiset oracle.
 //
-// A case runs on a family of heaps ("registers"; binary uses register 0 only).  The oracle keeps one
+// A case runs on a family of heaps ("registers"; binary uses register 0 only); after `merge d s` BOTH heaps
+// stay in use (the operand must have been left empty by Merge, any structure it still shares with the
+// receiver shows up in the following operations and dumps).  The oracle keeps one
 // multiset of (key, value) pairs per register and checks ADMISSIBILITY of every outcome (any held pair
 // with an extremal key is an acceptable answer of Peek/Delete); the exact outputs and the internal
 // structure (dump) are compared with the Lean Model by bin/check.
@@ -19,10 +21,13 @@ import (
 	"verifharness/hx"
 )
 
-const Rule = "cases = (implementation, comparator min|max|half, initial size 0-4 for binary, op sequence over a family " +
-	"of heaps) drawn from VERIF_SEED: keys from a 6-value universe (dense duplicates; occasionally 0-40), every " +
-	"inserted value distinct so a wrong pair is visible, phases of filling and draining, Merge with operands " +
-	"built in the same case, long insert/delete churn crossing binary-heap resize boundaries, state dumps " +
+const Rule = "cases = (implementation, comparator min|max|half and the non-normalised minraw a-b | min7 7(a-b) | maxraw b-a, " +
+	"initial size 0-4 for binary, op sequence over a family of heaps) drawn from VERIF_SEED: keys from a 6-value " +
+	"universe (dense duplicates; occasionally 0-40 or only 2 values for long runs of ties), every " +
+	"inserted value distinct so a wrong pair is visible, phases of filling and draining, Merge between heaps " +
+	"built in the same case with BOTH heaps used afterwards (receiver fresh / drained / DeleteAll-ed / non-empty, " +
+	"operand empty or not, the same operand merged again, self-merge), long insert/delete churn crossing " +
+	"binary-heap resize boundaries, state dumps " +
 	"(array / forest in root-list order) after mutations; non-trivial = at least one operation whose " +
 	"consolidation linked >= 2 trees, or a binary-heap resize (grow or shrink); distinct = distinct (header, op list)"
 
@@ -56,13 +61,21 @@ func cmpOf(ori string) func(int, int) int {
 		return cmpMax
 	case "half":
 		return cmpHalf
+	case "minraw": // not normalised to -1/0/+1: only the sign may matter
+		return func(a, b int) int { return a - b }
+	case "min7":
+		return func(a, b int) int { return 7 * (a - b) }
+	case "maxraw":
+		return func(a, b int) int { return b - a }
 	}
 	return cmpMin
 }
 
 type reg struct {
-	h   heap.Heap[int, int]
-	bag []kv
+	h        heap.Heap[int, int]
+	bag      []kv
+	everHeld bool // held an entry at some point
+	merged   bool // was the operand of a Merge
 }
 
 func newHeap(comp string, size int, cmp func(int, int) int) heap.Heap[int, int] {
@@ -230,24 +243,39 @@ func exec(c hx.Case, res *hx.Result, mu *sync.Mutex) {
 			if f[0] == "merge" && len(f) == 3 && mergeable {
 				d, _ := strconv.Atoi(f[1])
 				s, _ := strconv.Atoi(f[2])
-				if d == s || d < 0 || s < 0 {
+				if d < 0 || s < 0 {
 					return
 				}
 				get(max(d, s))
 				rd, rs := regs[d], regs[s]
 				before := len(heap.VerifRoots(rd.h)) + len(heap.VerifRoots(rs.h))
 				rd.h.(heap.MergeableHeap[int, int]).Merge(rs.h.(heap.MergeableHeap[int, int]))
+				out = "ok"
+				if d == s {
+					tags["merge-self"] = true
+					return // merging a heap into itself changes nothing
+				}
 				if comp == "binomial" {
 					links(before - len(heap.VerifRoots(rd.h)))
 				}
-				if len(rd.bag) > 0 && len(rs.bag) > 0 {
+				switch {
+				case len(rd.bag) > 0 && len(rs.bag) > 0:
 					tags["merge-both-nonempty"] = true
-				} else {
-					tags["merge-with-empty"] = true
+				case len(rd.bag) == 0 && len(rs.bag) > 0:
+					tags["merge-into-empty-receiver"] = true
+					if rd.everHeld {
+						tags["merge-into-drained-or-cleared-receiver"] = true
+					}
+				case len(rs.bag) == 0:
+					tags["merge-empty-operand"] = true
 				}
+				if rs.merged {
+					tags["merge-same-operand-again"] = true
+				}
+				rs.merged = true
 				rd.bag = append(rd.bag, rs.bag...)
-				regs[s] = &reg{h: newHeap(comp, size, cmp)}
-				out = "ok"
+				rd.everHeld = rd.everHeld || len(rd.bag) > 0
+				rs.bag = nil // the operand stays in use and must be empty now
 				return
 			}
 			r, err := strconv.Atoi(f[1])
@@ -265,6 +293,10 @@ func exec(c hx.Case, res *hx.Result, mu *sync.Mutex) {
 					before = len(heap.VerifRoots(g.h))
 				}
 				g.h.Insert(k, v)
+				if g.merged {
+					tags["operand-used-after-merge"] = true
+				}
+				g.everHeld = true
 				g.bag = append(g.bag, kv{k, v})
 				if len(g.bag) > maxBag {
 					maxBag = len(g.bag)
@@ -450,19 +482,31 @@ func (g *gen) merge() {
 	if s >= d {
 		s++
 	}
-	if g.r.Chance(2, 3) { // mostly into the main heap
+	if g.r.Chance(1, 2) { // often into the main heap
 		d, s = 0, g.r.Range(1, g.nregs-1)
 	}
+	if g.r.Chance(1, 25) { // a heap merged into itself
+		s = d
+	}
 	g.add(fmt.Sprintf("merge %d %d", d, s))
-	g.held[d] += g.held[s]
-	g.held[s] = 0
+	if d != s {
+		g.held[d] += g.held[s]
+		g.held[s] = 0
+	}
+	if g.r.Chance(1, 3) { // look at the operand right away
+		g.add(fmt.Sprintf("size %d", s))
+		g.add(fmt.Sprintf("dump %d", s))
+	}
 }
 
 // mixed: phases of filling and draining with queries, merges and dumps in between
 func genMixed(r *hx.Rand, comp string, n int, dumpEvery int) []string {
 	g := &gen{r: r, comp: comp, universe: 6, nregs: 1}
-	if r.Chance(1, 6) {
+	switch r.Intn(8) {
+	case 0:
 		g.universe = 41
+	case 1:
+		g.universe = 2 // long runs of ties for the extremum
 	}
 	if comp != "binary" {
 		g.nregs = r.Range(1, 3)
@@ -558,6 +602,133 @@ func genChurn(r *hx.Rand, comp string, rounds int) []string {
 	return g.ops
 }
 
+// mergeEdges: the boundary constructions around Merge.  The receiver is fresh, filled and drained by Delete,
+// filled and DeleteAll-ed, or non-empty; the operand is empty, fresh-filled, or itself a former operand; after the
+// Merge both heaps are used again (inserts into the operand, deletes from both, the same Merge repeated, the
+// Merge the other way round), with dumps of both.
+func genMergeEdges(r *hx.Rand, comp string) []string {
+	g := &gen{r: r, comp: comp, universe: hx.Pick(r, []int{2, 6, 6}), nregs: 2}
+	if r.Chance(1, 3) {
+		g.nregs = 3
+	}
+	g.held = make([]int, g.nregs)
+	fill := func(rg, n int) {
+		for k := 0; k < n; k++ {
+			g.ins(rg)
+		}
+	}
+	both := func() {
+		for k := 0; k < g.nregs; k++ {
+			g.add(fmt.Sprintf("size %d", k))
+			g.add(fmt.Sprintf("dump %d", k))
+		}
+	}
+	rounds := r.Range(1, 4)
+	for round := 0; round < rounds; round++ {
+		d := r.Intn(g.nregs)
+		s := (d + 1 + r.Intn(g.nregs-1)) % g.nregs
+		switch r.Intn(4) { // the receiver
+		case 0: // as it is (fresh in the first round)
+		case 1: // drained by Delete
+			fill(d, r.Range(1, 5))
+			for g.held[d] > 0 {
+				g.del(d)
+			}
+			if r.Bool() {
+				g.del(d)
+			}
+		case 2: // DeleteAll-ed
+			fill(d, r.Range(1, 5))
+			g.add(fmt.Sprintf("clear %d", d))
+			g.held[d] = 0
+		case 3:
+			fill(d, r.Range(1, 6))
+			if r.Bool() {
+				g.del(d)
+			}
+		}
+		switch r.Intn(4) { // the operand
+		case 0: // as it is (maybe empty, maybe a former operand)
+		case 1:
+			fill(s, r.Range(1, 6))
+		case 2:
+			fill(s, r.Range(2, 7))
+			g.del(s)
+		case 3:
+			fill(s, r.Range(1, 3))
+			g.add(fmt.Sprintf("clear %d", s))
+			g.held[s] = 0
+		}
+		g.add(fmt.Sprintf("merge %d %d", d, s))
+		g.held[d] += g.held[s]
+		g.held[s] = 0
+		both()
+		// keep using both
+		for k := r.Range(1, 6); k > 0; k-- {
+			switch r.Intn(7) {
+			case 0, 1:
+				g.ins(s)
+			case 2:
+				g.del(s)
+			case 3:
+				g.del(d)
+			case 4:
+				g.ins(d)
+			case 5:
+				g.add(fmt.Sprintf("merge %d %d", d, s)) // the same operand again
+				g.held[d] += g.held[s]
+				g.held[s] = 0
+			case 6:
+				g.add(fmt.Sprintf("merge %d %d", s, d)) // the other way round
+				g.held[s] += g.held[d]
+				g.held[d] = 0
+			}
+			if r.Intn(3) == 0 {
+				g.query(r.Intn(g.nregs))
+			}
+		}
+		both()
+	}
+	for k := 0; k < g.nregs; k++ {
+		for n := g.held[k] + 1; n > 0; n-- {
+			g.add(fmt.Sprintf("del %d", k))
+		}
+	}
+	both()
+	return g.ops
+}
+
+// ties: many entries over two keys, then a complete drain: every Delete has several candidates tying for the
+// extremum (the Model must mirror which one the code picks, the oracle accepts any)
+func genTies(r *hx.Rand, comp string) []string {
+	g := &gen{r: r, comp: comp, universe: 2, nregs: 1}
+	g.held = make([]int, 1)
+	n := r.Range(6, 40)
+	for k := 0; k < n; k++ {
+		g.ins(0)
+		if r.Intn(6) == 0 {
+			g.del(0)
+		}
+	}
+	g.add("dump 0")
+	for g.held[0] > 0 {
+		g.del(0)
+		if r.Intn(5) == 0 {
+			g.add("peek 0")
+		}
+		if r.Intn(8) == 0 {
+			g.add("dump 0")
+		}
+		if r.Intn(10) == 0 {
+			g.ins(0)
+		}
+	}
+	g.add("del 0")
+	g.add("size 0")
+	g.add("dump 0")
+	return g.ops
+}
+
 // exhaustive enumerates every op sequence of the given length over the alphabet.
 func exhaustive(alpha []string, n int, f func([]string)) {
 	idx := make([]int, n)
@@ -597,7 +768,8 @@ func withValues(ops []string) []string {
 }
 
 var comps = []string{"binary", "binomial", "fibonacci"}
-var oris = []string{"min", "max", "half"}
+// the first two are the normalised min / max orientations
+var oris = []string{"min", "max", "half", "minraw", "min7", "maxraw"}
 
 func header(comp, ori string, size int) string {
 	if comp == "binary" {
@@ -621,12 +793,25 @@ func Main(run *hx.Run) {
 		n := run.Scale(1500)
 		for k := 0; k < n && !gaveUp(comp); k++ {
 			ori := hx.Pick(r, oris)
-			if r.Chance(1, 2) {
-				ori = hx.Pick(r, oris[:2])
-			}
 			length := r.Range(4, 90)
-			c := hx.Case{Header: header(comp, ori, r.Intn(5)), Ops: genMixed(r, comp, length, 3)}
+			size := r.Intn(5)
+			if r.Chance(1, 2) {
+				size = r.Intn(2) // NewBinary(0, …) and NewBinary(1, …)
+			}
+			c := hx.Case{Header: header(comp, ori, size), Ops: genMixed(r, comp, length, 3)}
 			run.Do(comp, c, Exec)
+		}
+		rt := run.R.Fork(comp + "-ties")
+		n = run.Scale(150)
+		for k := 0; k < n && !gaveUp(comp); k++ {
+			run.Do(comp, hx.Case{Header: header(comp, hx.Pick(rt, oris), rt.Intn(3)), Ops: genTies(rt, comp)}, Exec)
+		}
+		if comp != "binary" {
+			rm := run.R.Fork(comp + "-merge-edges")
+			n = run.Scale(500)
+			for k := 0; k < n && !gaveUp(comp); k++ {
+				run.Do(comp, hx.Case{Header: header(comp, hx.Pick(rm, oris), 0), Ops: genMergeEdges(rm, comp)}, Exec)
+			}
 		}
 		rc := run.R.Fork(comp + "-churn")
 		n = run.Scale(40)
@@ -645,7 +830,7 @@ func Main(run *hx.Run) {
 	if run.Thorough() {
 		// binary: every history of length <= 7 over {ins 0, ins 1, ins 2, del, clear} for initial sizes 0..2
 		alphaB := []string{"ins 0 0", "ins 0 1", "ins 0 2", "del 0", "clear 0"}
-		for _, ori := range oris[:2] {
+		for _, ori := range []string{"min", "maxraw"} {
 			for size := 0; size <= 2; size++ {
 				for n := 1; n <= 7; n++ {
 					exhaustive(alphaB, n, func(ops []string) {
@@ -661,7 +846,7 @@ func Main(run *hx.Run) {
 		// mergeable: every history of length <= 6 over two registers with merges both ways
 		alphaM := []string{"ins 0 0", "ins 0 1", "ins 1 0", "ins 1 1", "del 0", "del 1", "merge 0 1", "merge 1 0"}
 		for _, comp := range comps[1:] {
-			for _, ori := range oris[:2] {
+			for _, ori := range []string{"min7", "max"} {
 				for n := 1; n <= 6; n++ {
 					exhaustive(alphaM, n, func(ops []string) {
 						if gaveUp(comp) {
@@ -684,8 +869,8 @@ func Main(run *hx.Run) {
 				})
 			}
 		}
-		run.Stats.Extra["exhaustive_part"] = "binary: all histories of length<=7 over {ins k0,k1,k2; del; clear}, sizes 0..2, min and max; " +
-			"binomial and fibonacci: all histories of length<=6 over two heaps {ins r k (2x2), del r, merge both ways}, min and max, " +
+		run.Stats.Extra["exhaustive_part"] = "binary: all histories of length<=7 over {ins k0,k1,k2; del; clear}, sizes 0..2, min and maxraw; " +
+			"binomial and fibonacci: all histories of length<=6 over two heaps {ins r k (2x2), del r, merge both ways, both heaps used on}, min7 and max, " +
 			"and all histories of length 7..8 over {ins k0,k1,k2; del} on one heap"
 	}
 }
